@@ -192,6 +192,44 @@ def impl_compare(case):
     return ta, tb, out
 
 
+def leaf_root_cases(run: Run, stream, n):
+    """compare_trees takes any two nodes: text, comment and PI nodes as the roots of the comparison (attached ones taken
+    from two documents, and parentless ones)"""
+    from delb import Document, altered_default_filters, compare_trees, new_comment_node, new_processing_instruction_node
+
+    rng = run.rng
+    for _ in range(n):
+        kind = rng.choice(["text", "comment", "pi"])
+        a = rng.choice(["lorem", "x", " ", "é"])
+        b = a if rng.random() < 0.4 else rng.choice(["LOREM", "x ", "", "y"])
+        ta, tb = rng.choice(["t", "u"]), rng.choice(["t", "t", "u"])
+        case = {"leaf_roots": kind, "a": a, "b": b, "targets": [ta, tb], "attached": rng.random() < 0.6}
+        if kind == "text" and (not a or not b):
+            continue
+        with altered_default_filters():
+            if case["attached"]:
+                mk = {"text": lambda s, t: s.replace("&", "&amp;").replace("<", "&lt;"), "comment": lambda s, t: f"<!--{s}-->",
+                      "pi": lambda s, t: f"<?{t} {s}?>"}[kind]
+                da, db = Document(f"<r><k/>{mk(a, ta)}<k/></r>"), Document(f"<r><k/>{mk(b, tb)}<k/></r>")
+                na, nb = da.root[1], db.root[1]
+            elif kind == "comment":
+                na, nb = new_comment_node(a), new_comment_node(b)
+            elif kind == "pi":
+                na, nb = new_processing_instruction_node(ta, a), new_processing_instruction_node(tb, b)
+            else:
+                da, db = Document("<r/>"), Document("<r/>")
+                na, nb = da.root.append_children(a)[0].detach(), db.root.append_children(b)[0].detach()
+            equal = a == b and (kind != "pi" or ta == tb)
+            run.case(stream, case, not equal)
+            run.count("leaf roots", kind)
+            for x, y in ((na, nb), (nb, na)):
+                r = compare_trees(x, y)
+                if bool(r) != equal:
+                    run.violation(stream, case, {"why": "verdict for two childless nodes as roots", "compare_trees": bool(r), "equal": equal})
+                elif not equal and (r.lhn is not x or r.rhn is not y):
+                    run.violation(stream, case, {"why": "the reported pair is not the differing pair"})
+
+
 def gen_case(rng):
     t = trees.gen_tree(rng, max_depth=3, max_kids=4, nss=["", "", "urn:x", "urn:y"], p_comment=0.15, p_pi=0.1,
                        text=lambda g: trees.gen_text(g, ws_prob=0.2), inherit_ns=0.8, adjacent_text=rng.random() < 0.3)
@@ -274,6 +312,7 @@ def check(run: Run, lean: dict) -> int:
     ok = lean.get("driver_ok", True)
     run_cases(run, corpus(), "corpus", ok)
     run_cases(run, [gen_case(run.rng) for _ in range(n)], "generated", ok)
+    leaf_root_cases(run, "childless roots", 150)
     return run.finish(lean, LEVEL, ASSUME, search=search)
 
 
